@@ -173,7 +173,7 @@ class C18(Oracle):
         for i, spec in enumerate(over):
             nm = self._colname(a, spec)
             if isinstance(nm, str) and i < len(got):
-                if not re.match("^" + re.escape(nm) + r"\d*$", got[i]):
+                if not re.match("^" + re.escape(nm) + r"_?\d*$", got[i]):
                     return "%s: key column named %r came out as %r" % (rec["fn"], nm, got[i])
         rest = got[k:]
         wants = []
@@ -184,7 +184,7 @@ class C18(Oracle):
                 base = docsan(nm) if nm is not None else "col"
                 if base is None:
                     base = "col"
-                wants.append("^" + re.escape(base) + "_?_" + suf + r"\d*$")
+                wants.append("^" + re.escape(base) + "_?_" + suf + r"_?\d*$")
         n_apply = len(rec.get("apply", []))
         body = rest[:len(rest) - n_apply] if n_apply else rest
         if len(body) != len(wants):
